@@ -500,6 +500,42 @@ def replay(trace, prop, keep_log=False):
     return Run(sc, prop, trace.get('quarantine', ()), keep_log).run()
 
 
+def result_digests(seeds, quarantine=()):
+    """per-seed digest of everything the calcs of a scenario returned (used across interpreters)"""
+    out = {}
+    for seed in seeds:
+        r = run_seed(seed, 'C06', quarantine, keep_log=False)
+        out[str(seed)] = r.log.digest()
+    return out
+
+
+def cross_interpreter(prop, seeds, quarantine):
+    """C06 (iv): the same seeds in a fresh interpreter under another PYTHONHASHSEED must give the same results.
+    Returns a list of (seed, violation dict) for seeds whose digests differ."""
+    if prop != 'C06':
+        return []
+    import json as _json
+    import os as _os
+    import subprocess as _sp
+    import sys as _sys
+    seeds = list(seeds)[:300]
+    mine = result_digests(seeds, quarantine)
+    env = dict(_os.environ, PYTHONHASHSEED='271828')
+    code = ("import sys, json; sys.path.insert(0, %r); from sim import core, smachine; core.load_pjplan(); "
+            "print('XD ' + json.dumps(smachine.result_digests(%r, %r)))" % (core.VERIF_DIR, seeds, list(quarantine)))
+    p = _sp.run([_sys.executable, '-c', code], capture_output=True, text=True, env=env, timeout=1800)
+    other = None
+    for line in p.stdout.splitlines():
+        if line.startswith('XD '):
+            other = _json.loads(line[3:])
+    if other is None:
+        raise core.HarnessError('cross-interpreter digest run failed: ' + p.stderr[-500:])
+    bad = [int(k) for k in mine if mine[k] != other.get(k)]
+    return [(sd, {'property': 'C06', 'clause': 'differs-across-interpreters',
+                  'sig': 'C06/differs-across-interpreters', 'detail': f'seed {sd}: results differ under PYTHONHASHSEED=271828', 'step': 0})
+            for sd in bad[:3]]
+
+
 def amplify(trace, prop):
     """C06 only: repeat the first calc many times on the same and on fresh scheduler objects"""
     if prop != 'C06':
